@@ -538,8 +538,9 @@ def check(ctx):
                     ctx.ob("R16-d", f_, f"the only operations on {cls_}.{fld} are feeding it" + (" (and the reset when the stream is closed)" if okfuncs else ""), bool(ok_), node=stmt_of(n_),
                            detail="" if ok_ else f"`{norm(stmt_of(n_))}` changes the codec state in mid-stream", by=(f"{fld}.{m_}",))
     encs = ctx.sites(ts, f"$E = self._encoder.encode({item})")
-    if ctx.need("R16-d", ts, "`encoded = self._encoder.encode(item)`", len(encs), 1):
-        ev = u(encs[0][1]["E"])
+    folded = ctx.sites(ts, f"await self.transport_stream.send(self._encoder.encode({item}))")      # canonical form when the temporary is single-use
+    if ctx.need("R16-d", ts, "`encoded = self._encoder.encode(item)`", len(encs) + len(folded), 1):
+        ev = u(encs[0][1]["E"]) if encs else f"self._encoder.encode({item})"
         snd = ctx.sites(ts, f"await self.transport_stream.send({ev})")
         ctx.ob("R16-d", ts, "the whole encoded item is sent", len(snd) == 1, detail="" if snd else f"`{ev}` is not passed unchanged to transport_stream.send", by=("send(encoded)",))
         dominates_all_exits(ctx, "R16-d", ts, f"await self.transport_stream.send({ev})", "every send() forwards its item")
